@@ -568,6 +568,12 @@ def currentIndex (o : Obj) (name : String) (current : Option TAttr) : R Nat :=
     | .ok (some i) => pure i
     | .error err => .error err
 
+/-- `current_attribute.tag != new_attribute.tag` -/
+def currentMismatch (current : Option TAttr) (name : String) : Bool :=
+  match current with
+  | some cur => cur.name != name
+  | none => false
+
 /-- the modified object and the attribute echoed in the response -/
 def modifyCore (c : Ctx) (ver : Nat) (o : Obj) (attr current new : Option TAttr) : R (Obj × Option TAttr) := do
   if ver ≥ 20 then
@@ -575,6 +581,8 @@ def modifyCore (c : Ctx) (ver : Nat) (o : Obj) (attr current new : Option TAttr)
     | none => ierr "payload.new_attribute is None"
     | some nw =>
       if !(← c.isModifiable nw.name) then kerr Rsn.permissionDenied "The attribute is read-only and cannot be modified." else
+      if currentMismatch current nw.name then
+        kerr Rsn.invalidField "The current attribute and the new attribute must be instances of the same attribute." else
       if (← c.isMultivalued nw.name) then
         let i ← currentIndex o nw.name current
         let o' ← setByIndex o nw.name nw.value i
